@@ -5,7 +5,7 @@
    multiple-of helpers are stated for EVERY exact multiplication / division
    ([bmul_exact], [bdivrem_exact] = the statements of Mul.umul_spec / Div.udivrem_spec). *)
 From BigNum Require Import Base BaseLemmas X86 AddSub AddSubProofs PgrLoop PgrLoopProofs Pow PowProofs
-  Gcd SpecGcd GcdProofs GcdProofs2 GcdProofs3 Extracted InstAddSub InstPgr.
+  Gcd SpecGcd GcdProofs GcdProofs2 GcdProofs3 Div PgrInst Extracted InstAddSub InstPgr.
 Open Scope Z_scope.
 
 (* Stein's binary gcd computes the non-negative greatest common divisor (never OutOfFuel,
@@ -148,6 +148,39 @@ Proof.
   - intros x Cx. split; [apply iinc_spec|apply idec_spec]; auto using addsub_params_ok.
 Qed.
 Print Assumptions C13_inc_dec.
+
+
+(* CLOSED instances at the real division model Div.udivrem (C03): no hypothesis left *)
+Theorem C13_multiples_closed :
+  (forall a b, canon a -> canon b ->
+    uis_multiple_of pgr_bdivrem a b = spec_is_multiple_of (val a) (val b) /\
+    unext_multiple_of pgr_bdivrem addsub a b = omap enc (spec_next_multiple_of (val a) (val b)) /\
+    uprev_multiple_of pgr_bdivrem addsub a b = omap enc (spec_prev_multiple_of (val a) (val b))) /\
+  (forall x y, icanon x -> icanon y ->
+    iis_multiple_of pgr_bdivrem x y = spec_is_multiple_of (ival x) (ival y) /\
+    inext_multiple_of pgr_bdivrem addsub x y = omap ienc (spec_next_multiple_of (ival x) (ival y)) /\
+    iprev_multiple_of pgr_bdivrem addsub x y = omap ienc (spec_prev_multiple_of (ival x) (ival y))).
+Proof.
+  split; intros.
+  - apply C13_multiples_u; auto using pgr_bdivrem_exact.
+  - apply C13_multiples_i; auto using pgr_bdivrem_exact.
+Qed.
+Print Assumptions C13_multiples_closed.
+
+(* lcm / Bezout at the real division; the multiplication hypothesis remains until Mul is merged *)
+Theorem C13_lcm_egcd_div_closed : forall bmul, bmul_exact bmul ->
+  (forall a b, canon a -> canon b ->
+     ulcm bmul pgr_bdivrem addsub pgr_gcd a b = Ret (enc (zlcm (val a) (val b)))) /\
+  (forall a b, icanon a -> icanon b ->
+     exists g x y,
+       iextended_gcd bmul pgr_bdivrem addsub a b = Ret (ienc g, ienc x, ienc y) /\
+       ival a * x + ival b * y = g /\ g = Z.gcd (ival a) (ival b) /\ 0 <= g).
+Proof.
+  intros bmul Hm. split; intros.
+  - apply (C13_lcm bmul pgr_bdivrem Hm pgr_bdivrem_exact); auto.
+  - apply C13_egcd; auto using pgr_bdivrem_exact.
+Qed.
+Print Assumptions C13_lcm_egcd_div_closed.
 
 (* Non-vacuity: the hypotheses are satisfiable; a gcd with trailing zeros spanning a digit
    (gcd(3*2^65, 5*2^64+2^64) ...), a Bezout triple with mixed signs, a negative next multiple. *)
